@@ -205,6 +205,7 @@ def e5_messages(doc, full):
         ("request typeName, params ref, result ref", {"method": "verif/doThing", "typeName": "VerifDoThingRequest", "params": R("HoverParams"), "result": R("Hover"), "messageDirection": "clientToServer"}),
         ("request no typeName, no params, result null", {"method": "verif/ping", "result": B("null"), "messageDirection": "serverToClient"}),
         ("request no typeName, params ref, result T|null, registration options", {"method": "verif/maybeThing", "params": R("HoverParams"), "result": OR(R("Hover"), B("null")), "registrationOptions": R("HoverRegistrationOptions"), "messageDirection": "both"}),
+        ("request no typeName, method ends in Request", {"method": "verif/confirmRequest", "params": R("HoverParams"), "result": B("null"), "messageDirection": "serverToClient"}),
     ]
     if full:
         reqs += [
@@ -241,6 +242,12 @@ def e6_marks(doc, full):
     _struct(d, LEAF)["since"] = "3.19.0"
     _struct(d, LEAF)["sinceTags"] = ["3.6.0", "3.19.0"]
     out.append(("deprecated/since/sinceTags on structure %s" % LEAF, "E6:deprecated-since", d))
+    d = copy.deepcopy(doc)
+    _struct(d, LEAF)["proposed"] = True
+    _struct(d, LEAF)["deprecated"] = "both marks"
+    _struct(d, LEAF)["properties"][0]["proposed"] = True
+    _struct(d, LEAF)["properties"][0]["deprecated"] = "both marks"
+    out.append(("proposed AND deprecated on structure %s and its first property" % LEAF, "E6:proposed-and-deprecated", d))
     if full:
         d = copy.deepcopy(doc)
         e = _enum(d, "MarkupKind")
